@@ -923,3 +923,11 @@ M("r14-entry-filled-after-second-lookup", ["C12", "C13"], "break",
    ("yaep.c", "	      (*parse_free) (*node_ptr);\n	    }\n	}\n      VLO_DELETE (tnodes_vlo);", "	      (*parse_free) (*node_ptr);\n	    }\n	  *entry = (hash_table_entry_t) *node_ptr;\n	}\n      VLO_DELETE (tnodes_vlo);")], "R14-entry")
 M("r14-entry-second-variable-benign", ["C12", "C13"], "benign",
   [("yaep.c", "		  entry\n		    = find_hash_table_entry (reserv_mem_tab,\n					     (*node_ptr)->val.anode.name, TRUE);\n		  if (*entry == NULL)\n		    {\n		      *entry\n			= (hash_table_entry_t) (*node_ptr)->val.anode.name;", "		  hash_table_entry_t *name_entry;\n\n		  name_entry\n		    = find_hash_table_entry (reserv_mem_tab,\n					     (*node_ptr)->val.anode.name, TRUE);\n		  if (*name_entry == NULL)\n		    {\n		      *name_entry\n			= (hash_table_entry_t) (*node_ptr)->val.anode.name;")])
+M("r4m-revert-F44-short-pos", ["C12"], "break",
+  [("yaep.c", "     The rule can be longer than SHRT_MAX symbols.  */\n  int pos;", "     The rule can be longer than SHRT_MAX symbols.  */\n  short pos;")], "R4m")
+M("r4o-revert-F45-order-before-test", ["C12"], "break",
+  [("yaep.c", "      anode = state->anode;\n      pl_ind = state->pl_ind;\n      orig = state->orig;\n      if (pos < 0)", "      anode = state->anode;\n      disp = rule->order[pos];\n      pl_ind = state->pl_ind;\n      orig = state->orig;\n      if (pos < 0)")], "R4o")
+M("r4n-revert-F46-cost-sum-unguarded", ["C12", "C04"], "break",
+  [("yaep.c", "	      if (*cost > INT_MAX - node->val.anode.cost)\n		node->val.anode.cost = INT_MAX;\n	      else\n		node->val.anode.cost += *cost;", "	      node->val.anode.cost += *cost;")], "R4n")
+M("r4n-guard-other-operand-benign", ["C12", "C04"], "benign",
+  [("yaep.c", "	      if (*cost > INT_MAX - node->val.anode.cost)\n		node->val.anode.cost = INT_MAX;\n	      else\n		node->val.anode.cost += *cost;", "	      if (node->val.anode.cost <= INT_MAX - *cost)\n		node->val.anode.cost += *cost;\n	      else\n		node->val.anode.cost = INT_MAX;")])
